@@ -14,6 +14,8 @@ CONSTANTS
   Pres <- Q_Pres
   PreSpecSrcs <- Q_PreSpecSrcs
   AliasAttrs = FALSE
+  DeclFiles <- Q_DeclFiles
+  HeaderRate = FALSE
   HistStride = 11
   ReadCache = FALSE
 PROPERTY Terminates
